@@ -1,6 +1,8 @@
-(** C30 — proofs: the validation gate implies the regular-name condition under which a raw
-    name reads back; the ungated entry points are refuted by a witness. *)
-From OxVerif Require Import Base.Util C09.Model C09.Tokens C09.FracSweep C09.Proofs C30.Model.
+(** C30 — proofs: with #XX escaping every name of bytes reads back at both emission sites; every
+    ASCII name reads back as the same String; the validation gate implies the regular-name
+    condition (under which the escaper changes nothing). *)
+From OxVerif Require Import Base.Util C09.Model C09.Tokens C09.FracSweep C09.Proofs C09.Reals C09.Full C30.Model.
+From OxVerif Require C21.Tok C21.Model C21.Lexemes.
 Require Import Lia ZifyBool.
 
 Lemma valid_char_regular : forall c, valid_char c = true -> regular_char c = true.
@@ -19,16 +21,84 @@ Proof.
   unfold valid_char in H. unfold content_regular_char, regular_char, is_nd, is_ws. lia.
 Qed.
 
-Lemma gated_name_reads_back : forall n rest, valid_resource_name n = true -> good_rest rest ->
-  lex1 (47 :: n ++ rest) = (TName n, rest).
-Proof. intros. apply lex1_name; [apply valid_regular|]; assumption. Qed.
+(** ** the repaired writer: EVERY name of bytes reads back, as bytes, at both sites *)
+Lemma name_roundtrip : forall n rest, bytes_ok n = true -> good_rest rest ->
+  lex1 (47 :: esc_iso n ++ rest) = (TName n, rest).
+Proof. exact lex_esc_iso_name. Qed.
 
-Lemma raw_name_refuted : exists n, lex1 (47 :: n ++ [32]) <> (TName n, [32])
-                                   /\ parse (ser raw_name (ODict [(n, ORef 5 0)])) = None.
-Proof. exists (b "My Image"). vm_compute. split; [discriminate | reflexivity]. Qed.
+(** C21's escaper model is the same function *)
+Lemma esc_same : forall n, C21.Model.esc_name n = esc_iso n.
+Proof. induction n as [|c n IH]; [reflexivity|]. cbn [C21.Model.esc_name esc_iso]. rewrite IH. reflexivity. Qed.
+
+Lemma content_name_roundtrip : forall n rest, bytes_ok n = true -> C21.Lexemes.delim_follows rest ->
+  Tok.scan_name (esc_iso n ++ rest) = (esc_iso n, rest) /\ Tok.decode_name (esc_iso n) = Some n.
+Proof.
+  intros n rest H D. rewrite <- esc_same. split; [apply C21.Lexemes.scan_name_esc | apply C21.Lexemes.decode_name_esc]; assumption.
+Qed.
+
+(** ** String level: ASCII names (any ASCII: white space, delimiters, '#', controls) *)
+Lemma utf8_valid_ascii : forall n, ascii_name n = true -> Tok.utf8_valid n = true.
+Proof.
+  induction n as [|c n IH]; intro H; [reflexivity|].
+  cbn [ascii_name forallb] in H. apply andb_true_iff in H. destruct H as [Hc Hn].
+  cbn [Tok.utf8_valid]. rewrite Hc. apply IH. exact Hn.
+Qed.
+Lemma ascii_bytes_ok : forall n, ascii_name n = true -> bytes_ok n = true.
+Proof.
+  unfold ascii_name, bytes_ok. intros n H. rewrite forallb_forall in *. intros x Hx. specialize (H x Hx).
+  unfold byte_ok. lia.
+Qed.
+Lemma bytes_eqb_refl : forall n, bytes_eqb n n = true.
+Proof. intro n. apply bytes_eqb_eq. reflexivity. Qed.
+
+Lemma key_back_ascii : forall n, ascii_name n = true -> key_back n = Some n.
+Proof.
+  intros n A. unfold key_back. rewrite (name_roundtrip n [32] (ascii_bytes_ok n A)) by (cbn; auto).
+  rewrite (l1_utf8_ascii n A). reflexivity.
+Qed.
+Lemma operand_back_utf8 : forall n, bytes_ok n = true -> Tok.utf8_valid n = true -> operand_back n = Some n.
+Proof.
+  intros n B U. unfold operand_back.
+  destruct (content_name_roundtrip n [32; 68; 111; 10] B eq_refl) as [S D]. rewrite S, D, U. reflexivity.
+Qed.
+
+Lemma image_ascii_reads_back : forall n, ascii_name n = true -> predicted EImage n = 0.
+Proof.
+  intros n A. unfold predicted. rewrite (key_back_ascii n A).
+  rewrite (operand_back_utf8 n (ascii_bytes_ok n A) (utf8_valid_ascii n A)).
+  cbn [same]. rewrite bytes_eqb_refl. reflexivity.
+Qed.
+Lemma form_ascii_never_broken : forall n, ascii_name n = true -> predicted EForm n <> 2.
+Proof.
+  intros n A. unfold predicted. destruct (valid_resource_name n); [|discriminate].
+  rewrite (key_back_ascii n A). cbn [same]. rewrite bytes_eqb_refl. discriminate.
+Qed.
+
+Lemma gated_name_reads_back : forall n rest, valid_resource_name n = true -> bytes_ok n = true -> good_rest rest ->
+  lex1 (47 :: esc_iso n ++ rest) = (TName n, rest).
+Proof. intros. apply name_roundtrip; assumption. Qed.
+
+(** record about the writer before fix_name_escape: names raw *)
+Lemma raw_name_refuted_pinned : exists n, lex1 (47 :: n ++ [32]) <> (TName n, [32])
+                                   /\ parse (ser raw_name (ODict [(n, ORef 5 0)])) = None
+                                   /\ predicted_pinned EImage n = 2
+                                   /\ lex1 (47 :: esc_iso n ++ [32]) = (TName n, [32])
+                                   /\ parse (ser esc_iso (ODict [(n, ORef 5 0)])) = Some (PDict [(n, PRef 5 0)])
+                                   /\ predicted EImage n = 0.
+Proof. exists (b "My Image"). vm_compute. repeat split; try reflexivity. discriminate. Qed.
+
+(** what remains (C30-name-nonascii): the object reader builds one char per byte, so the key of a
+    non-ASCII name comes back as a different String, while the content tokenizer decodes UTF-8 *)
+Lemma nonascii_refuted : exists n, bytes_ok n = true /\ Tok.utf8_valid n = true /\ ascii_name n = false
+  /\ key_back n = Some [195; 131; 194; 169] /\ operand_back n = Some n
+  /\ predicted EImage n = 2 /\ predicted EForm n = 2 /\ n = [195; 169].
+Proof. exists [195; 169]. vm_compute. repeat split. Qed.
 
 Example gate_nonvacuous : valid_resource_name (b "Im{1") = false /\ valid_resource_name (b "Fm0+x") = true
-                          /\ predicted EImage (b "My Image") = 2 /\ predicted EForm (b "My Image") = 1.
+                          /\ predicted EImage (b "My Image") = 0 /\ predicted EForm (b "My Image") = 1
+                          /\ predicted EImage (b "A#20") = 0 /\ predicted EImage (b "Im{1}") = 0
+                          /\ predicted EImage [110; 0; 9; 10; 12; 13; 37; 40; 41; 47; 60; 62; 91; 93; 127] = 0
+                          /\ predicted_pinned EImage (b "My Image") = 2.
 Proof. vm_compute. repeat split. Qed.
 
 (** the judgement of the pages channel says what it should: code 0 iff on every page every name
